@@ -788,6 +788,9 @@ func (m *Model) unenforced(p Pos, fam string, s S) bool {
 	switch {
 	case p.Named && fam == "array":
 		name = "UNENFORCED_NAMED_ARRAY"
+	case p.Named && (fam == "string" || fam == "numeric") && has(typeList(s), "null"):
+		// a definition (or root) of type [T, "null"] is a named pointer type: no unmarshaler, nothing is checked
+		name = "NULLABLE_DEF_UNENFORCED"
 	case p.Named:
 	case fam == "required":
 		switch {
